@@ -12,7 +12,6 @@ pub const REC_EVENTS: [&str; 9] = ["X", "Y", "M", "L", "I/D", "poll (no deadline
 pub const POLL_WHAT: [&str; 3] = ["pending MSB", "unpaired LSB", "nothing pending"];
 pub const POLL_WHEN: [&str; 3] = ["early", "exactly at deadline", "late"];
 pub const TIMEOUT_CLASS: [&str; 3] = ["timeout 0", "finite timeout", "effectively infinite timeout"];
-pub const KINDS: [&str; 3] = ["cc14", "pn", "polling"];
 
 macro_rules! probes_struct {
     (scalars: { $($s:ident),* $(,)? } arrays: { $($a:ident : $n:expr),* $(,)? }) => {
